@@ -435,11 +435,12 @@ def parse_file(path):
         kind = m.group(1).split()[0]
         if l.rstrip().endswith(";") and kind == "const":
             # const NAME: T = const V;
-            mm = re.match(r"^const (.*?): (.*?) = const (.*);$", l)
+            mm = re.match(r"^const (.*) = const (.*);$", l)
             if mm:
-                b = Body(mm.group(1), "const")
-                b.ret = mm.group(2)
-                b.const_value = mm.group(3)
+                parts = split_top(mm.group(1), ": ")
+                b = Body(parts[0], "const")
+                b.ret = ": ".join(parts[1:])
+                b.const_value = mm.group(2)
                 bodies.append(b)
             i += 1
             continue
@@ -499,9 +500,10 @@ def parse_header(kind, h, b):
         rest = h[end + 1:].strip()
         b.ret = rest[2:].strip() if rest.startswith("->") else "()"
     else:
-        mm = re.match(r"^(.*?): (.*) =$", h, re.S)
-        b.name = mm.group(1)
-        b.ret = mm.group(2)
+        assert h.endswith(" ="), h
+        parts = split_top(h[:-2], ": ")
+        b.name = parts[0]
+        b.ret = ": ".join(parts[1:])
 
 
 def parse_body(kind, header, lines):
